@@ -48,12 +48,14 @@ bloc_errno() {
 static void
 bloc_error_raz()
 {
+  BLOC_VERIF_POINT(BLOC_VP_CAPIERR, &bloc_error);
   bloc_error = { "", 0 };
 }
 
 static void
 bloc_error_set(const char *msg, int no)
 {
+  BLOC_VERIF_POINT(BLOC_VP_CAPIERR, &bloc_error);
   bloc_error.msg = msg;
   bloc_error.no = no;
 }
